@@ -1,12 +1,12 @@
 #!/bin/bash
-# usage: h8check.sh <dir-with-a.diff,b.diff,c.diff> [verify]
+# usage: h8check.sh <dir-with-a.diff,b.diff,c.diff[,d.diff]> [verify]
 # every rule, both configurations, on each (claimed behaviour-preserving) patch applied in memory; with
 # "verify": also builds, vets and runs the suite on each patch in a scratch worktree outside /repo and
 # /verif, each `go test` in a private /tmp (vectors configuration too, with the stand-in engine, when the
 # patch touches the vector files).
 export GOFLAGS=-mod=mod GOPROXY=off GOSUMDB=off GOTOOLCHAIN=local GOWORK=off
 D=$(realpath $1)
-for f in $D/a.diff $D/b.diff $D/c.diff; do
+for f in $D/a.diff $D/b.diff $D/c.diff $D/d.diff; do
   [ -f $f ] || continue
   out=$(/verif/bin/zapxlint list -patch $f 2>&1 | grep "^\s*\[\|LOAD ERR\|checker panic\|^stale\|does not apply" | grep -v "R16/mergeToWriter/field-table-at-offset-0" | sort | uniq -c)
   if [ -z "$out" ]; then echo "quiet  $f"; else echo "ALARM  $f"; echo "$out" | sed 's/^/        /'; fi
